@@ -17,7 +17,7 @@ LEVEL = "exploration"
 EXHAUSTIVE = False
 TIERS = {
     "quick": {"runs": 384, "budget_s": 150, "chunk": 2, "max_shrink": 3, "shrink_each_s": 20, "shrink_budget_s": 60},
-    "thorough": {"runs": 9000, "budget_s": 3000, "chunk": 4, "max_shrink": 6, "shrink_each_s": 40, "shrink_budget_s": 300},
+    "thorough": {"runs": 14000, "budget_s": 3300, "chunk": 4, "max_shrink": 6, "shrink_each_s": 40, "shrink_budget_s": 300},
 }
 HIST_PER_WORLD = {"quick": 10, "thorough": 12}
 CHILD_TIMEOUT = {"quick": 40, "thorough": 90}
@@ -356,6 +356,14 @@ def make_history(rng, world, with_faults):
             op["_tag"] = "fault:" + name + ":" + op["type"]
             ops.append(op)
             continue
+        if r < 0.58:
+            # compile only: the rule is loaded and compiled (config stored process-wide) but never matched
+            e = rng.choice([x for x in pool])
+            op = _match_op(rng, e, listings, binaries)
+            op["compile_only"] = True
+            op["_tag"] = "compile:" + e["family"] + ":" + e["variant"]
+            ops.append(op)
+            continue
         if r < 0.85:
             e = rng.choice(byfam[focus])
             same_in = focus_in if e["pref"] and (e["pref"].endswith(".o") == focus_in.endswith(".o")) else None
@@ -428,8 +436,13 @@ def check_history(files, ops, runner, seed=0, want_events=False):
                 "expected": _short(ref_oc), "got": _short(got),
             })
         prev_tag = op.get("_tag", "?")
+    fired_labels = {}
+    for k, op in enumerate(ops):
+        for fi in res["fired"][k]:
+            lab = op["faults"][fi]["label"]
+            fired_labels[lab] = fired_labels.get(lab, 0) + 1
     info = {"checked": checked, "pairs": pairs, "abort_stage_hits": stages, "vtime": res["vtime"], "escapes": res["escapes"],
-            "digest": util.digest(res["events"]), "fired": sum(len(x) for x in res["fired"])}
+            "digest": util.digest(res["events"]), "fired": sum(len(x) for x in res["fired"]), "fired_labels": fired_labels}
     if want_events:
         info["events"] = res["events"]
     return viols, info
@@ -481,9 +494,11 @@ def run_one(index, seed, runner, tier, opts):
             warnings.append(f"seam-escape run {index}: {e}")
         for st, c in info["abort_stage_hits"].items():
             counters["abort_stage_hits"][st] = counters["abort_stage_hits"].get(st, 0) + c
+        for lab, c in info["fired_labels"].items():
+            counters["faults_fired"][lab] = counters["faults_fired"].get(lab, 0) + c
         for op in ops:
-            for f in op.get("faults") or []:
-                counters["faults_fired"][f["label"]] = counters["faults_fired"].get(f["label"], 0) + 1
+            fam = op.get("_tag", "?").split(":")[0]
+            counters["families"][fam] = counters["families"].get(fam, 0) + 1
         lb = str(min(len(ops), 15))
         counters["history_len"][lb] = counters["history_len"].get(lb, 0) + 1
         for sig, cls in info["pairs"]:
